@@ -8,7 +8,7 @@ CLAIMED = {
         "level": "proof",
         "text": "Every obligation is unbounded or a completely enumerated finite domain: the word kernels (bit reversal, 64x64 parity, the three mask macros, lesser-LSB, spread/shrink) are loop-free code checked by CBMC over their full input domain against closed-form contracts (ghost bit index); m4ri_gray_code is checked for all l<=16 and all arguments; m4ri_build_code is verified under its contract for every k with its data loops closed by mechanically inserted loop invariants (no unwinding of the 2^k iterations).",
         "design_ref": "DESIGN.md 3/C19 and 8",
-        "note": "Trusted: CBMC 6.11 (front end, dfcc, SAT back ends), the spec macros in contracts/c19_contracts.h. Quick tier covers k<=14 of the code book, thorough all 16. mzd_make_table (the consumer of the code book) is exercised only inside the bounded M4RM instances of C01, not under its own contract.",
+        "note": "Trusted: CBMC 6.11 (front end, dfcc, SAT back ends), the spec macros in contracts/c19_contracts.h. Quick tier covers k<=14 of the code book, thorough all 16. mzd_make_table (the consumer of the code book) is verified under its own subset-sum contract for k<=5 (bounded in the row width; k = 6..8 thorough-tier explorations).",
         "technique": _T + "full-domain symbolic inputs, loop invariants for m4ri_build_code",
     },
     "C14": {
@@ -27,7 +27,7 @@ CLAIMED = {
     },
     "C13": {
         "level": "model_checking",
-        "text": "Function contracts (cell-wise value + frame over the whole parent block) for row swap, column swap in a row range, row add / clear from a column, bit read/write/xor/clear and the six permutation applications are enforced on the real code for an enumerated envelope of concrete shapes (owned, window at word offset 0, window at odd word offset; every width class), with all matrix contents, parent contents and scalar arguments symbolic. Bounded: nothing is claimed beyond the enumerated shapes.",
+        "text": "Function contracts (cell-wise value + frame over the whole parent block) for row swap, column swap in a row range, row add / clear from a column, bit read/write/xor/clear, the combine kernels, the seven permutation applications and the compression step of the block-recursive PLE (_mzd_compress_l) are enforced on the real code for an enumerated envelope of concrete shapes (owned, window at word offset 0, window at odd word offset; every width class), with all matrix contents, parent contents and scalar arguments symbolic. Bounded: nothing is claimed beyond the enumerated shapes.",
         "design_ref": "DESIGN.md 3/C13",
         "note": "shape envelope listed in the evidence; permutations fully symbolic up to length 20, identity-except-3-symbolic-entries for 70/130 columns; strip loop of the column-permutation kernel executes once in every shape.",
         "technique": _TB,
